@@ -128,6 +128,59 @@ fn transport(kind: &str, data: &[u8], n: usize) -> String {
                 Err(e) => format!("err:{}", kind_of(&e)),
             }
         }
+        // activation by a foreign activator (systemd, libvarlink's `varlink --activate`, a multiplexing parent): it hands over
+        // its own listening socket as descriptor 3, in whatever mode it used it itself (blocking, or O_NONBLOCK)
+        "foreignact" | "foreignactnb" => {
+            let path = format!("{}/fa-{}-{}.sock", tmpdir(), std::process::id(), n);
+            let _ = std::fs::remove_file(&path);
+            let l = std::os::unix::net::UnixListener::bind(&path).unwrap();
+            if kind == "foreignactnb" {
+                l.set_nonblocking(true).unwrap();
+            }
+            let raw = l.as_raw_fd();
+            let mut cmd = std::process::Command::new("sh");
+            cmd.arg("-c")
+                .arg(format!("LISTEN_PID=$$ exec {} --listen0 'unix:{}'", actsrv(), path))
+                .env("LISTEN_FDS", "1")
+                .env_remove("LISTEN_FDNAMES")
+                .env_remove("VH_NOISY")
+                .stdin(std::process::Stdio::null())
+                .stdout(std::process::Stdio::null())
+                .stderr(std::process::Stdio::null());
+            unsafe {
+                cmd.pre_exec(move || {
+                    libc::dup2(raw, 10);
+                    libc::dup2(10, 3);
+                    libc::close(10);
+                    Ok(())
+                });
+            }
+            let mut child = match cmd.spawn() {
+                Ok(c) => c,
+                Err(e) => return format!("SPAWN-ERROR {}", e),
+            };
+            drop(l);
+            // the service is up and waiting in accept() well before the first client arrives
+            std::thread::sleep(Duration::from_millis(400));
+            let addr = format!("unix:{}", path);
+            let res = match varlink::Connection::with_address(&addr) {
+                Ok(c) => {
+                    let out = exchange(c, data);
+                    // and it keeps serving: a second client
+                    let again = match varlink::Connection::with_address(&addr) {
+                        Ok(c2) => hex(&exchange(c2, b"{\"method\":\"org.varlink.service.GetInfo\"}\0")),
+                        Err(e) => format!("err:{}", kind_of(&e)),
+                    };
+                    let alive = matches!(child.try_wait(), Ok(None));
+                    format!("out={} again2={} alive={}", hex(&out), again, alive as u8)
+                }
+                Err(e) => format!("out=- connect_err={} alive={}", kind_of(&e), matches!(child.try_wait(), Ok(None)) as u8),
+            };
+            let _ = child.kill();
+            let _ = child.wait();
+            let _ = std::fs::remove_file(&path);
+            res
+        }
         "bridge" => {
             let cmd = format!("{} --stdio", actsrv());
             match varlink::Connection::with_bridge(&cmd) {
